@@ -120,7 +120,19 @@ func (p *Program) Callees(c *ssa.CallCommon) (fns []*ssa.Function, unknown bool)
 		return nil, true
 	}
 	for _, fn := range p.AllFuncs {
-		if fn.Signature != nil && fn.Signature.Recv() == nil && types.Identical(fn.Signature, sig) {
+		if fn.Signature == nil {
+			continue
+		}
+		if fn.Signature.Recv() == nil {
+			if types.Identical(fn.Signature, sig) {
+				fns = append(fns, fn)
+			}
+			continue
+		}
+		// a bound method value x.m has the method's signature without its receiver
+		fs := fn.Signature
+		unbound := types.NewSignatureType(nil, nil, nil, fs.Params(), fs.Results(), fs.Variadic())
+		if types.Identical(unbound, sig) {
 			fns = append(fns, fn)
 		}
 	}
@@ -173,7 +185,7 @@ func (p *Program) instrWrites(in ssa.Instruction, includeFresh bool, out map[str
 	S := p.Sorts
 	switch i := in.(type) {
 	case *ssa.Store:
-		if al, ok := i.Addr.(*ssa.Alloc); ok && !al.Heap && !includeFresh {
+		if al := rootAlloc(i.Addr); al != nil && !includeFresh {
 			return // purely local cell
 		}
 		p.rootKeys(i.Addr, out)
@@ -339,4 +351,45 @@ func (p *Program) BuildSummaries() {
 			}
 		}
 	}
+}
+
+// rootAlloc returns the Alloc at the root of an address chain (FieldAddr/IndexAddr on pointers), or nil.
+func rootAlloc(addr ssa.Value) *ssa.Alloc {
+	for {
+		switch a := addr.(type) {
+		case *ssa.Alloc:
+			return a
+		case *ssa.FieldAddr:
+			addr = a.X
+		case *ssa.IndexAddr:
+			if _, ok := a.X.Type().Underlying().(*types.Pointer); ok {
+				addr = a.X
+			} else {
+				return nil
+			}
+		default:
+			return nil
+		}
+	}
+}
+
+// FrameViolations lists heap keys fn may write (per its summary) that its assigns clause does not allow.
+func (p *Program) FrameViolations(fn *ssa.Function, c *FuncContract) (bad []string, dynamic bool) {
+	s := p.Summ[fn]
+	if s == nil || len(c.Assigns) == 0 {
+		return nil, false
+	}
+	allowed := map[string]bool{"CLOCK": true}
+	for _, a := range c.Assigns {
+		for _, k := range p.assignKeys(c.Pkg, a) {
+			allowed[k] = true
+		}
+	}
+	for k := range s.Writes {
+		if !allowed[k] {
+			bad = append(bad, k)
+		}
+	}
+	sort.Strings(bad)
+	return bad, s.All
 }
